@@ -361,8 +361,12 @@ def rand_poly_spec(rng, zmode=None, nholes=None):
     return p
 
 
+T_A, T_B = EPOCH + timedelta(hours=30), EPOCH + timedelta(days=2, microseconds=5)
 PROPS = [None, {}, {'a': 1}, {'name': 'x "q"', 'n': 2.5, 'flag': True, 'none': None},
-         {'nested': {'l': [1, 2.25, 'y'], 'd': {'k': False}}, 'b': -7}]
+         {'nested': {'l': [1, 2.25, 'y'], 'd': {'k': False}}, 'b': -7},
+         # datetime values at every depth and in every container (JSON-serialisable means all of them become text)
+         {'seen': T_A}, {'passes': [T_A, T_B]}, {'id': 7, 'source': {'id': 7, 'passes': [T_A, T_B]}},
+         {'log': [[T_A], [1, [T_B]]], 'recs': [{'at': T_B, 'n': 1}, {'n': 2}]}, {'t': T_A, 'l': [T_B], 'd': {'x': [T_A]}}]
 UPS = [None, None, {}, {'a': 2}, {'extra': 'v', 'n': 0.5}, {'datetime_start': 'override'}]
 DTS = [None, 3, (1, 5), (2, 2), None, 0]
 
@@ -479,6 +483,18 @@ def rfc_shape_violations(g, expect_id=None):
     return bad
 
 
+def json_image(o):
+    """what a property value is after one trip through JSON (independent of sanitize_json): datetimes at any
+    depth become their ISO text, containers are rebuilt"""
+    if isinstance(o, datetime):
+        return o.isoformat()
+    if isinstance(o, dict):
+        return {k: json_image(v) for k, v in o.items()}
+    if isinstance(o, (list, tuple)):
+        return [json_image(v) for v in o]
+    return o
+
+
 def roundtrip_violations(spec, obj, ups):
     """export -> import identity, purity of the import, double import, text path"""
     bad = []
@@ -491,6 +507,7 @@ def roundtrip_violations(spec, obj, ups):
     g0 = copy.deepcopy(g)
     want_props = dict(obj._properties)
     want_props.update(ups or {})
+    want_props = json_image(want_props)       # datetime VALUES inside properties are text in any JSON document
     results = []
     for how, fn in (('parse_geojson(dict)', lambda: parse_geojson(g)), ('Type.from_geojson(dict)', lambda: cls.from_geojson(g)),
                     ('parse_geojson(dict) again', lambda: parse_geojson(g)), ('parse_geojson(text)', lambda: parse_geojson(text))):
@@ -638,6 +655,37 @@ def main():
             for cl, d in rfc_shape_violations(g):
                 pyviol.append((m, cl, d))
 
+    # ---- 3b. multi-polygons with curved members (fixed corpus) x k: each part is exported with the requested k,
+    #          i.e. it is the member's own polygon form for that k (the model receives the members as the rings the
+    #          implementation samples for THAT k, observed on the member alone)
+    mixed_members = [
+        lambda: [GeoCircle(Cd((10.125, 10.125, None)), 50000.0), GeoPolygon([Cd(c) for c in [(30.0, 0.0, None), (31.0, 0.0, None), (31.0, 1.0, None)]])],
+        lambda: [GeoPolygon([Cd(c) for c in [(0.0, 0.0, None), (1.0, 0.0, None), (1.0, 1.0, None), (0.0, 1.0, None)]]),
+                 GeoEllipse(Cd((20.0, -10.0, None)), 90000.0, 50000.0, 45.0), GeoRing(Cd((-40.0, 25.0, None)), 30000.0, 60000.0)],
+        lambda: [GeoRing(Cd((5.0, 5.0, None)), 1000.0, 90000.0, 10.0, 95.0)],
+    ]
+    for n, mk_members in enumerate(mixed_members):
+        for k in (None, 4, 9, 36, 60):
+            L = Enc(labels=True)
+            mp = MultiGeoPolygon(mk_members(), dt=mkdt(DTS[n % len(DTS)], n))
+            kw_ = {'k': k} if k else {}
+            g = guarded(lambda: mp.to_geojson(**kw_))
+            m = {'op': 'export', 'kind': 'mpoly-curved', 'members': [repr(x) for x in mp.geoshapes], 'k': k, 'corpus': n}
+            if g[0] != 'Ok':
+                pyviol.append((m, 'export_shape', f'to_geojson raised {g[1]}'))
+                continue
+            g = g[1]
+            parts = [obs_poly(x.to_polygon(**kw_) if not isinstance(x, GeoPolygon) else x, L) for x in mk_members()]
+            kl = 'None' if k is None else f'(Some {k})'
+            add(f'KExport [] [] (mkshape (GMPoly {listlit(parts)}) {spec_dt_lit(DTS[n % len(DTS)])} []) None {kl} [] {jlit(g, L)}', m)
+            nontrivial.add(('mpoly-curved', n, k))
+            for cl, d in rfc_shape_violations(g):
+                pyviol.append((m, cl, d))
+            # each part equals the same member exported alone with the same k
+            alone = [x.to_geojson(**kw_)['geometry']['coordinates'] for x in mk_members()]
+            if g['geometry'].get('coordinates') != alone:
+                pyviol.append((m, 'export_shape', f'a part of the multi-polygon differs from the member exported alone with k={k}'))
+
     # ---- 4. collections
     n_coll = 24 if quick else 200
     for n in range(n_coll):
@@ -681,7 +729,7 @@ def main():
                     g = copy.deepcopy(g0)
                 back = r[1].geoshapes
                 if not (len(back) == len(coll.geoshapes) and all(
-                        b == o and b.dt == o.dt and b._properties == {**o._properties, **(ups or {})}
+                        b == o and b.dt == o.dt and b._properties == json_image({**o._properties, **(ups or {})})
                         for b, o in zip(back, coll.geoshapes))):
                     pyviol.append((m, 'geojson_roundtrip', f'collection import ({how}) differs from the collection'))
         exported_docs.append(('fc', g))
